@@ -104,10 +104,10 @@ def run(ctx):
     found = False
     for f in rn:
         ctx.analysed_fns.add(f.name)
-        for bb in sorted(f.live_blocks()):
-            tt = f.term(bb)
-            if tt["k"] == "switch":
-                c = f.expr(tt["a"], 12, stop={"named"})
+        # the comparison is the condition of a branch (loop form) or the value a predicate closure returns (`find(|(_, a)| **a == address + 1)`)
+        cands = [(f.expr(f.term(bb)["a"], 12, stop={"named"}), f.term(bb).get("sp")) for bb in sorted(f.live_blocks()) if f.term(bb)["k"] == "switch"]
+        cands += [(f.rvalue_expr(s_["r"], 12, stop={"named"}), s_.get("sp")) for bb, i_, s_ in f.assigns() if s_["p"]["l"] == 0 and place_is_local(s_["p"]) and s_["r"]["k"] == "bin"]
+        for c, csp in cands:
                 if c[0] == "bin" and c[1] in ("Eq", "Ne"):
                     for side, other in ((c[2], c[3]), (c[3], c[2])):
                         l = lin(side)
@@ -115,7 +115,7 @@ def run(ctx):
                         # by shape, not by the names of the locals: `<table entry> == <one symbol> + 1`
                         if lo[0] == 0 and len(lo[1]) == 1 and list(lo[1].values()) == [1] and len(l[1]) == 1 and l[0] != 0 and set(l[1]) != set(lo[1]):
                             found = True
-                            check("reverse lookup compares table line with index + 1", sp_file_line(tt.get("sp")), l, 1, [(lambda s: True, 1)])
+                            check("reverse lookup compares table line with index + 1", sp_file_line(csp), l, 1, [(lambda s: True, 1)])
     ctx.need(found, "comparison in the symbol-name lookup")
     disp, sw_bb, arms, sp, selfp = dbg.dispatcher(ctx)
     # closures of the dispatcher calling resolve_symbol_name: argument = address - orig
